@@ -152,4 +152,29 @@ def apply() -> None:
         return _stock_join(self, itr)
 
     core._PATCH_REGISTRATIONS[str.join] = _str_join
+
+    # 6. set.add on CrossHair's set model nests one lazy union per element, and len() of that nest costs
+    #    O(n^3) traced comparisons (a 128-element `seen_pointers` set took 20 s).  Same semantics, flat:
+    #    membership is decided (by the same element comparisons) when the element is added.
+    import crosshair.simplestructs as st
+
+    _stock_add = st.ShellMutableSet.add
+
+    def _add(self, x):  # type: ignore[no-untyped-def]
+        with NoTracing():
+            inner = self._inner
+            flat = type(inner) in (st.LinearSet, st.EmptySet) and (type(inner) is st.EmptySet or type(inner._items) in (list, tuple))
+        if not flat:
+            return _stock_add(self, x)
+        if not st.is_hashable(x):
+            raise TypeError('unhashable type')
+        if x in inner:
+            return None
+        with NoTracing():
+            items = [] if type(inner) is st.EmptySet else list(inner._items)
+            items.append(x)
+            self._inner = st.LinearSet(items)
+        return None
+
+    st.ShellMutableSet.add = _add  # type: ignore[method-assign]
     _done = True
